@@ -33,6 +33,9 @@ RULE = (
     "alongside. Non-trivial: every evaluation; distinct by (class, value)."
     " Every IpAddress whose four octets read as text (digits, hex letters, colon, dot, blank:"
     " 390625 addresses) is decoded and re-encoded."
+    " Four threads convert and decode at once under yield injection; ten lazily decoded value"
+    "s are read at every stack depth from 120 frames below the recursion limit up to it (righ"
+    "t value or RecursionError)."
 )
 ASSUMPTIONS = [
     "TimeTicks are hundredths of a second (RFC 2578 7.1.8); a timedelta that is not a multiple of 10 ms may be floored or rounded",
